@@ -210,6 +210,47 @@ def binary_oracle(outcome, tier):
     outcome.extra["binary_runs"] = runs
 
 
+def uniformity_oracle(outcome, tier, seed):
+    """The verdict at a depth is the source format's: the same whatever the target and whatever map-rooted shape carries the
+    nesting (a root table, so that TOML can take the document too): all maps, maps and arrays alternating, one map around
+    nothing but arrays."""
+    def texts(d):
+        return {"maps": b'{"a":' * d + b"1" + b"}" * d,
+                "alt": b"".join(b'{"a":' if i % 2 == 0 else b"[" for i in range(d)) + b"1" + b"".join(b"}" if i % 2 == 0 else b"]" for i in reversed(range(d))),
+                "maparr": b'{"a":' + b"[" * (d - 1) + b"1" + b"]" * (d - 1) + b"}"}
+
+    def packs(d):
+        return {"maps": b"\x81\xa1a" * d + b"\x01", "alt": b"".join(b"\x81\xa1a" if i % 2 == 0 else b"\x91" for i in range(d)) + b"\x01",
+                "maparr": b"\x81\xa1a" + b"\x91" * (d - 1) + b"\x01"}
+    plans, reqs = [], []
+    for fmt, gen_, depths in (("msgpack", packs, (50, 79, 80, 81, 82, 100, 127, 128, 129, 300, 1000, 1023, 1024)),
+                              ("json", texts, (50, 79, 80, 81, 82, 100, 126, 127, 128, 129)), ("yaml", texts, (50, 79, 80, 81, 82, 100, 126, 127, 128, 129))):
+        for d in depths:
+            for sh, data in gen_(d).items():
+                for to in ("json", "yaml", "toml", "msgpack"):
+                    for mode in (("slice", "reader") if tier == "thorough" else ("slice",)):
+                        plans.append((fmt, d, sh, to, mode))
+                        reqs.append({"id": len(reqs), "to": to, "calls": [{"input": shared.hx(data), "from": fmt, "mode": mode, "sched": {"kind": "fixed", "n": 4096}}]})
+    resps = common.harness_batch(reqs)
+    verdicts = {}
+    for (fmt, d, sh, to, mode), r in zip(plans, resps):
+        res = shared.session_result(r)
+        if res[0] == "crash":
+            outcome.oracle_failures.append({"what": "crash/panic/hang at nesting depth %d" % d, "source_format": fmt, "shape": sh, "to": to, "mode": mode})
+            continue
+        verdicts.setdefault((fmt, d), {})[(sh, to, mode)] = res[0]
+    for (fmt, d), row in sorted(verdicts.items()):
+        if len(set(row.values())) > 1:
+            oks = sorted(k for k, v in row.items() if v == "ok")
+            errs = sorted(k for k, v in row.items() if v != "ok")
+            outcome.oracle_failures.append({"what": "at nesting depth %d the verdict for a %s document depends on the shape or on the target: %d combinations "
+                                                    "translate, %d are refused" % (d, fmt, len(oks), len(errs)),
+                                            "source_format": fmt, "depth": d, "translates": [list(k) for k in oks[:6]], "refused": [list(k) for k in errs[:6]]})
+    outcome.evaluations += len(reqs)
+    outcome.distinct_nontrivial += len(reqs)
+    outcome.extra["uniformity_oracle"] = {"requests": len(reqs), "shapes": ["maps", "alt", "maparr"], "targets": 4}
+
+
 def run(outcome, tier, seed):
     outcome.rule = ("MessagePack: model/implementation correspondence cases as described under msgpack_correspondence.bound "
                     "(non-trivial = non-empty input that translates successfully); nesting oracle: (format, shape, depth, target) "
@@ -217,6 +258,7 @@ def run(outcome, tier, seed):
     if outcome.hooks_available:
         shared.msgpack_correspondence(outcome, tier, seed)
     nesting_oracle(outcome, tier, seed)
+    uniformity_oracle(outcome, tier, seed)
     binary_oracle(outcome, tier)
 
 
